@@ -220,20 +220,38 @@ fn drive<F: Future>(env: &EnvRef, fut: F) -> Option<F::Output> {
 // async front-end
 // ---------------------------------------------------------------------------------------------
 
-type ADev<const P: u8, const G: i8, const N: usize> = async_device::Device<SimRadio<P, G>, SimTimer, SimRng, N, 8>;
+/// A radio the async device can be built on inside the simulated world: the stub (`SimRadio`) or the full
+/// stack (`stack::StackRadio`: real lora-phy on a simulated chip).
+pub trait WorldRadio: async_device::radio::PhyRxTx + async_device::Timings {
+    fn build(env: &EnvRef) -> Self;
+}
 
-pub struct AsyncDut<const P: u8, const G: i8, const N: usize> {
+impl<const P: u8, const G: i8> WorldRadio for SimRadio<P, G> {
+    fn build(env: &EnvRef) -> Self {
+        SimRadio::<P, G>::new(env.clone())
+    }
+}
+
+impl<RK: crate::stack::StackKind, const P: u8, const G: i8> WorldRadio for crate::stack::StackRadio<RK, P, G> {
+    fn build(env: &EnvRef) -> Self {
+        crate::stack::StackRadio::<RK, P, G>::new(env.clone())
+    }
+}
+
+type ADev<R, const N: usize> = async_device::Device<R, SimTimer, SimRng, N, 8>;
+
+pub struct AsyncDut<R: WorldRadio, const N: usize> {
     env: EnvRef,
-    dev: ADev<P, G, N>,
+    dev: ADev<R, N>,
     class_c: bool,
 }
 
-impl<const P: u8, const G: i8, const N: usize> AsyncDut<P, G, N> {
-    fn build(env: &EnvRef, session: Option<Session>, class_c: bool) -> ADev<P, G, N> {
+impl<R: WorldRadio, const N: usize> AsyncDut<R, N> {
+    fn build(env: &EnvRef, session: Option<Session>, class_c: bool) -> ADev<R, N> {
         let cfg = env.borrow().cfg.clone();
         let mut dev = async_device::Device::new_with_session(
             region_config(&cfg),
-            SimRadio::<P, G>::new(env.clone()),
+            R::build(env),
             SimTimer { env: env.clone() },
             SimRng { env: env.clone() },
             session,
@@ -252,7 +270,7 @@ impl<const P: u8, const G: i8, const N: usize> AsyncDut<P, G, N> {
         let session = if cfg.otaa { None } else { Some(make_session(&id.abp, cfg.fcnt_up0, cfg.fcnt_down0)) };
         AsyncDut { env: env.clone(), dev: Self::build(env, session, class_c), class_c }
     }
-    fn map_send(r: Result<async_device::SendResponse, async_device::Error<SimRadioError>>) -> OpResult {
+    fn map_send(r: Result<async_device::SendResponse, async_device::Error<R::PhyError>>) -> OpResult {
         use async_device::SendResponse as S;
         match r {
             Ok(S::DownlinkReceived(n)) => OpResult::Downlink(n),
@@ -267,7 +285,7 @@ impl<const P: u8, const G: i8, const N: usize> AsyncDut<P, G, N> {
     }
 }
 
-impl<const P: u8, const G: i8, const N: usize> Dut for AsyncDut<P, G, N> {
+impl<R: WorldRadio, const N: usize> Dut for AsyncDut<R, N> {
     fn join(&mut self) -> OpResult {
         let mode = otaa_mode(&self.env.borrow().id);
         let env = self.env.clone();
@@ -660,8 +678,22 @@ pub fn make_dut(env: &EnvRef) -> Box<dyn Dut> {
         ($p:literal, $g:literal) => {
             match fe {
                 Frontend::Nb => Box::new(NbDut::<$p, $g, 256>::new(env)) as Box<dyn Dut>,
-                _ => Box::new(AsyncDut::<$p, $g, 256>::new(env)) as Box<dyn Dut>,
+                _ => Box::new(AsyncDut::<SimRadio<$p, $g>, 256>::new(env)) as Box<dyn Dut>,
             }
+        };
+    }
+    // full stack: real lora-phy on a simulated chip (async front-ends, board 0)
+    let phy = env.borrow().cfg.phy;
+    if let (Some(pc), true) = (phy, fe != Frontend::Nb) {
+        use crate::stack::{StackRadio, K1261, K1262, K1272, K1276, KWl};
+        use physim::rig::ChipKind;
+        env.borrow_mut().device_buf_cap = 255;
+        return match pc.chip {
+            ChipKind::Sx1261 => Box::new(AsyncDut::<StackRadio<K1261, 14, 0>, 256>::new(env)) as Box<dyn Dut>,
+            ChipKind::Sx1262 => Box::new(AsyncDut::<StackRadio<K1262, 14, 0>, 256>::new(env)) as Box<dyn Dut>,
+            ChipKind::Stm32wl => Box::new(AsyncDut::<StackRadio<KWl, 14, 0>, 256>::new(env)) as Box<dyn Dut>,
+            ChipKind::Sx1272 => Box::new(AsyncDut::<StackRadio<K1272, 14, 0>, 256>::new(env)) as Box<dyn Dut>,
+            ChipKind::Sx1276 => Box::new(AsyncDut::<StackRadio<K1276, 14, 0>, 256>::new(env)) as Box<dyn Dut>,
         };
     }
     // a device whose radio buffer is smaller than the largest frame (board 0)
@@ -670,7 +702,7 @@ pub fn make_dut(env: &EnvRef) -> Box<dyn Dut> {
         env.borrow_mut().device_buf_cap = crate::script::SMALL_N;
         return match fe {
             Frontend::Nb => Box::new(NbDut::<14, 0, { crate::script::SMALL_N }>::new(env)) as Box<dyn Dut>,
-            _ => Box::new(AsyncDut::<14, 0, { crate::script::SMALL_N }>::new(env)) as Box<dyn Dut>,
+            _ => Box::new(AsyncDut::<SimRadio<14, 0>, { crate::script::SMALL_N }>::new(env)) as Box<dyn Dut>,
         };
     }
     // keep in sync with script::BOARDS
